@@ -374,10 +374,8 @@ func (c *c14Run) early(f []string) string {
 	if k := c12CountFiles(prefix); k != 0 {
 		c.setFail("close-leaves-resources", fmt.Sprintf("the session that broke as its handshake completed is closed, %d file(s) with its prefix remain in /dev/shm", k))
 	}
-	if err != nil {
-		return "err"
-	}
-	return "ok"
+	_ = err // newSession may return the closed session or an error: both are fine
+	return "returned"
 }
 
 func (c *c14Run) e2e(f []string) string {
@@ -635,7 +633,8 @@ func c14Exec(ops []string) vResult {
 		for t := range c.tags {
 			tags = append(tags, t)
 		}
-		return vResult{out: out, specFail: c.fail, key: c.key, tags: tags, noModel: true}
+		// `early` is also a line of the model (Estab: the tail of newSession against the event loop)
+		return vResult{out: out, specFail: c.fail, key: c.key, tags: tags, noModel: !strings.HasPrefix(ops[0], "early ")}
 	}
 	c.sched = &vScheduler{filter: c14Filter}
 	vS = c.sched
